@@ -5,7 +5,7 @@
 use crate::alloc::{self, har, sut, BlockState};
 use crate::model::{Model, Obj, OldAlloc, Verdict, WeakObs, CANARY, CANARY_DEAD};
 use crate::ops::{Faults, Id, Op};
-use crate::report::{self, violation};
+use crate::report::{self, soft, violation};
 use crate::shared::{fnv, st, st_max, St};
 use cactusref::{verif, Adopt, Rc, Weak};
 use std::cell::{Cell, RefCell};
@@ -172,10 +172,10 @@ fn c14_close() {
         let a1 = alloc::alloc_count();
         let t1 = verif::TRACE_CALLS.load(Relaxed);
         if t1 != t0 {
-            violation("traced-unlinked", "trace-on-object-without-records", &format!("clone/drop of a handle to object {o}, which has no recorded adoption, ran {} reachability trace(s)", t1 - t0));
+            soft("traced-unlinked", "trace-on-object-without-records", &format!("clone/drop of a handle to object {o}, which has no recorded adoption, ran {} reachability trace(s)", t1 - t0));
         }
         if a1 != a0 {
-            violation("alloc-unlinked", "allocation-on-object-without-records", &format!("clone/drop of a handle to object {o}, which has no recorded adoption, performed {} heap allocation(s)", a1 - a0));
+            soft("alloc-unlinked", "allocation-on-object-without-records", &format!("clone/drop of a handle to object {o}, which has no recorded adoption, performed {} heap allocation(s)", a1 - a0));
         }
     }
 }
@@ -676,9 +676,9 @@ fn exec_inner(op: &Op, dying: Option<&Node>) -> bool {
                 if up.is_some() != expect {
                     if up.is_some() {
                         std::mem::forget(up);
-                        violation("upgrade-wrong", "some-for-destroyed", &format!("Weak::upgrade returned a handle to object {t}, whose value has been destroyed or moved out"));
+                        violation("weak-resurrect", "some-for-destroyed", &format!("Weak::upgrade returned a handle to object {t}, whose value has been destroyed or moved out"));
                     } else {
-                        violation("upgrade-wrong", "none-for-live", &format!("Weak::upgrade returned None for live object {t}"));
+                        soft("upgrade-wrong", "none-for-live", &format!("Weak::upgrade returned None for live object {t}"));
                     }
                 }
             } else {
@@ -879,7 +879,7 @@ fn exec_inner(op: &Op, dying: Option<&Node>) -> bool {
             let got = sut(|| Rc::get_mut(&mut r).is_some());
             w(|w| w.hs.insert(h, r));
             if got != expect {
-                violation("api-result", "get_mut", &format!("get_mut on object {o} returned {} but uniqueness is {}", if got { "Some" } else { "None" }, expect));
+                soft("api-observation", "get_mut", &format!("get_mut on object {o} returned {} but uniqueness is {}", if got { "Some" } else { "None" }, expect));
             }
             st(if got { St::op_getmut_some } else { St::op_getmut_none }, 1);
             true
@@ -894,7 +894,7 @@ fn exec_inner(op: &Op, dying: Option<&Node>) -> bool {
             let p = sut(|| Rc::into_raw(rc));
             let e = m(|m| m.obj(o).epoch);
             if w(|w| w.as_ptr.get(&(o, e)).copied()) != Some(p as usize) {
-                violation("identity", "into_raw", &format!("into_raw of a handle to object {o} returned a pointer different from as_ptr"));
+                soft("identity", "into_raw", &format!("into_raw of a handle to object {o} returned a pointer different from as_ptr"));
             }
             m(|m| {
                 m.ph.remove(&h);
@@ -1074,7 +1074,7 @@ pub fn top_level(op: &Op) -> bool {
         }
     };
     if x(|x| x.panic_in_call) && !panicked {
-        violation("panic-not-propagated", "destructor-panic-swallowed", "a destructor panicked during the call but the panic did not reach the caller");
+        soft("panic-not-propagated", "destructor-panic-swallowed", "a destructor panicked during the call but the panic did not reach the caller");
     }
     if did || panicked {
         after_call(panicked);
@@ -1118,7 +1118,7 @@ fn after_call(panicked: bool) {
             for o in obl {
                 if m.is_alive(o) {
                     let phys = m.phys(o);
-                    violation(
+                    soft(
                         "not-collected",
                         if phys == 0 { "no-strong-handle-left" } else { "orphaned-group-left" },
                         &format!("object {o} had to be destroyed before the call returned (strong handles left: {phys}, all of them recorded adoptions held inside its orphaned group) but is still alive"),
@@ -1133,7 +1133,7 @@ fn after_call(panicked: bool) {
         let obs = std::mem::take(&mut m.weak_obs);
         for ob in obs {
             if !ob.some && !panicked && m.weak_alive(ob.target, ob.epoch) {
-                violation("upgrade-wrong", "none-for-live-in-destructor", &format!("Weak::upgrade inside the destructor of {} returned None for object {}, which is still alive after the call", ob.inn, ob.target));
+                soft("upgrade-wrong", "none-for-live-in-destructor", &format!("Weak::upgrade inside the destructor of {} returned None for object {}, which is still alive after the call", ob.inn, ob.target));
             }
         }
     });
@@ -1181,21 +1181,21 @@ fn after_call(panicked: bool) {
             let (sc, wcnt) = sut(|| (Rc::strong_count(r), Rc::weak_count(r)));
             cd = fnv(fnv(cd, sc as u64), wcnt as u64);
             if sc != phys as usize {
-                violation("count-mismatch", "strong_count", &format!("Rc::strong_count of object {o} is {sc}, but {phys} strong handles exist"));
+                soft("count-mismatch", "strong_count", &format!("Rc::strong_count of object {o} is {sc}, but {phys} strong handles exist"));
             }
             if wcnt != nweak as usize {
-                violation("count-mismatch", "weak_count", &format!("Rc::weak_count of object {o} is {wcnt}, but {nweak} Weak handles exist"));
+                soft("count-mismatch", "weak_count", &format!("Rc::weak_count of object {o} is {wcnt}, but {nweak} Weak handles exist"));
             }
             let vp = Rc::as_ptr(r) as usize;
             if wd.as_ptr.get(&(o, epoch)).copied() != Some(vp) {
-                violation("identity", "as_ptr-changed", &format!("as_ptr of a handle to object {o} differs from the address recorded when the allocation was created"));
+                soft("identity", "as_ptr-changed", &format!("as_ptr of a handle to object {o} differs from the address recorded when the allocation was created"));
             }
         }
         for i in 0..handles.len() {
             for j in i + 1..handles.len() {
                 let same = m(|m| m.ph[handles[i].0] == m.ph[handles[j].0]);
                 if Rc::ptr_eq(handles[i].1, handles[j].1) != same {
-                    violation("identity", "ptr_eq", &format!("ptr_eq of handles {} and {} is {}", handles[i].0, handles[j].0, !same));
+                    soft("identity", "ptr_eq", &format!("ptr_eq of handles {} and {} is {}", handles[i].0, handles[j].0, !same));
                 }
             }
         }
@@ -1209,16 +1209,16 @@ fn after_call(panicked: bool) {
             if alive {
                 let (phys, nweak) = m(|m| (m.phys(t), m.nweak(t, e)));
                 if sc != phys as usize || wcnt != nweak as usize {
-                    violation("weak-counts", "live-target", &format!("Weak to live object {t}: strong_count {sc} (expected {phys}), weak_count {wcnt} (expected {nweak})"));
+                    soft("weak-counts", "live-target", &format!("Weak to live object {t}: strong_count {sc} (expected {phys}), weak_count {wcnt} (expected {nweak})"));
                 }
                 let vp = wk.as_ptr() as usize;
                 if wd.as_ptr.get(&(t, e)).copied() != Some(vp) {
-                    violation("identity", "weak-as_ptr", &format!("Weak::as_ptr for object {t} differs from the address of its value"));
+                    soft("identity", "weak-as_ptr", &format!("Weak::as_ptr for object {t} differs from the address of its value"));
                 }
             } else {
                 st(St::p_c05_dead_weak_checks, 1);
                 if sc != 0 || wcnt != 0 {
-                    violation("dead-weak-counts", "nonzero-after-destruction", &format!("Weak to destroyed object {t} reports strong_count {sc}, weak_count {wcnt}"));
+                    soft("dead-weak-counts", "nonzero-after-destruction", &format!("Weak to destroyed object {t} reports strong_count {sc}, weak_count {wcnt}"));
                 }
             }
         }
@@ -1250,7 +1250,7 @@ fn after_call(panicked: bool) {
             }
             let sc = sut(|| Rc::strong_count(r));
             if sc != phys as usize {
-                violation("count-mismatch", "strong_count-reachable", &format!("Rc::strong_count of reachable object {o} is {sc}, but {phys} strong handles exist"));
+                soft("count-mismatch", "strong_count-reachable", &format!("Rc::strong_count of reachable object {o} is {sc}, but {phys} strong handles exist"));
             }
             snaps.push((o, verif::links_snapshot(r)));
             visit_slots(r, &mut work);
@@ -1269,6 +1269,9 @@ fn after_call(panicked: bool) {
 
 /// C08: the link tables equal the ledger, are symmetric and name only live objects.
 fn check_ledger(snaps: &[(Id, Vec<(usize, u8, usize)>)]) {
+    if !report::soft_enabled(report::S_LEDGER) {
+        return;
+    }
     let mut fwd: BTreeMap<(Id, Id), usize> = BTreeMap::new();
     let mut bwd: BTreeMap<(Id, Id), usize> = BTreeMap::new();
     let mut seen = BTreeSet::new();
@@ -1279,14 +1282,15 @@ fn check_ledger(snaps: &[(Id, Vec<(usize, u8, usize)>)]) {
             st(St::p_c08_entries, 1);
             let named = m(|m| m.addr_map.get(&addr).copied());
             let Some((p, e)) = named else {
-                violation("stale-record", "record-names-unknown-address", &format!("the bookkeeping of object {o} has an entry for address {addr:#x}, which was never an object allocation"));
+                soft("stale-record", "record-names-unknown-address", &format!("the bookkeeping of object {o} has an entry for address {addr:#x}, which was never an object allocation"));
+                continue;
             };
             let live = m(|m| m.objs.get(&p).map_or(false, |ob| ob.alive && ob.rc && ob.epoch == e));
             if !live {
-                violation("stale-record", "record-names-dead-object", &format!("the bookkeeping of object {o} still has an entry (kind {kind}, count {count}) naming object {p}, which is destroyed or whose allocation was given up"));
+                soft("stale-record", "record-names-dead-object", &format!("the bookkeeping of object {o} still has an entry (kind {kind}, count {count}) naming object {p}, which is destroyed or whose allocation was given up"));
             }
             if count == 0 {
-                violation("ledger-mismatch", "zero-count-entry", &format!("the bookkeeping of object {o} keeps an entry with count 0 for object {p}"));
+                soft("ledger-mismatch", "zero-count-entry", &format!("the bookkeeping of object {o} keeps an entry with count 0 for object {p}"));
             }
             match kind {
                 verif::KIND_FORWARD => {
@@ -1304,30 +1308,33 @@ fn check_ledger(snaps: &[(Id, Vec<(usize, u8, usize)>)]) {
         if seen.contains(&a) {
             let got = *fwd.get(&(a, b)).unwrap_or(&0);
             if got != c as usize {
-                violation("ledger-mismatch", "forward-count", &format!("object {a} records {got} adoption(s) of object {b}, the calls made imply {c}"));
+                soft("ledger-mismatch", "forward-count", &format!("object {a} records {got} adoption(s) of object {b}, the calls made imply {c}"));
             }
         }
         if seen.contains(&b) {
             let got = *bwd.get(&(a, b)).unwrap_or(&0);
             if got != c as usize {
-                violation("asymmetric-record", "backward-count", &format!("object {b} records {got} adoption(s) by object {a}, the calls made imply {c}"));
+                soft("asymmetric-record", "backward-count", &format!("object {b} records {got} adoption(s) by object {a}, the calls made imply {c}"));
             }
         }
     }
     for (&(a, b), &got) in &fwd {
         if !ledger.contains_key(&(a, b)) {
-            violation("ledger-mismatch", "forward-extra", &format!("object {a} records {got} adoption(s) of object {b}, the calls made imply none"));
+            soft("ledger-mismatch", "forward-extra", &format!("object {a} records {got} adoption(s) of object {b}, the calls made imply none"));
         }
     }
     for (&(a, b), &got) in &bwd {
         if !ledger.contains_key(&(a, b)) {
-            violation("asymmetric-record", "backward-extra", &format!("object {b} records {got} adoption(s) by object {a}, the calls made imply none"));
+            soft("asymmetric-record", "backward-extra", &format!("object {b} records {got} adoption(s) by object {a}, the calls made imply none"));
         }
     }
 }
 
 /// C04: allocation accounting.
 fn check_memory() {
+    if !report::soft_enabled(report::S_LEAK) {
+        return;
+    }
     let mut expected_rcbox_live = 0usize;
     let mut tables_allowed = 0usize;
     let mut all_dead = true;
@@ -1345,7 +1352,7 @@ fn check_memory() {
                 tables_allowed += 1;
             }
             if state != BlockState::Live {
-                violation("released-early", "allocation-of-live-object-released", &format!("the allocation of live object {o} has been released"));
+                soft("released-early", "allocation-of-live-object-released", &format!("the allocation of live object {o} has been released"));
             }
         } else if ob.rc {
             if ob.interrupted {
@@ -1361,10 +1368,10 @@ fn check_memory() {
                 all_dead = false;
                 expected_rcbox_live += 1;
                 if state != BlockState::Live {
-                    violation("released-early", "allocation-released-while-weak-exists", &format!("the allocation of destroyed object {o} was released although Weak handles to it exist"));
+                    soft("released-early", "allocation-released-while-weak-exists", &format!("the allocation of destroyed object {o} was released although Weak handles to it exist"));
                 }
             } else if state != BlockState::Released {
-                violation("not-released", "allocation-of-destroyed-object", &format!("object {o} is destroyed and no Weak handle remains, but its allocation has not been released"));
+                soft("not-released", "allocation-of-destroyed-object", &format!("object {o} is destroyed and no Weak handle remains, but its allocation has not been released"));
             }
         }
     }
@@ -1376,15 +1383,15 @@ fn check_memory() {
             all_dead = false;
             expected_rcbox_live += 1;
             if state != BlockState::Live {
-                violation("released-early", "given-up-allocation-released-while-weak-exists", &format!("the former allocation of object {} was released although Weak handles to it exist", oa.obj));
+                soft("released-early", "given-up-allocation-released-while-weak-exists", &format!("the former allocation of object {} was released although Weak handles to it exist", oa.obj));
             }
         } else if state != BlockState::Released {
-            violation("not-released", "given-up-allocation", &format!("the allocation given up by try_unwrap/make_mut on object {} has not been released although no Weak handle remains", oa.obj));
+            soft("not-released", "given-up-allocation", &format!("the allocation given up by try_unwrap/make_mut on object {} has not been released although no Weak handle remains", oa.obj));
         }
     }
     let live = alloc::live_blocks();
     if live > expected_rcbox_live + tables_allowed {
-        violation(
+        soft(
             "leak",
             "bookkeeping-or-temporary-left",
             &format!("{live} library blocks are live after the call, but only {expected_rcbox_live} object allocations and at most {tables_allowed} bookkeeping tables can be accounted for"),
@@ -1393,7 +1400,7 @@ fn check_memory() {
     if all_dead && m(|m| m.pw.is_empty()) {
         st(St::p_quiescent, 1);
         if live != 0 || alloc::live_bytes() != 0 {
-            violation("leak", "heap-not-returned", &format!("every object is destroyed and every Weak dropped, but {live} library blocks ({} bytes) are still allocated", alloc::live_bytes()));
+            soft("leak", "heap-not-returned", &format!("every object is destroyed and every Weak dropped, but {live} library blocks ({} bytes) are still allocated", alloc::live_bytes()));
         }
     }
 }
